@@ -41,7 +41,7 @@ def run(tier: str) -> int:
             it["qs"] = qrng.sample(it["qs"], 120)
         items += r6i
         gens.append(r6)
-    groups = ic.run_y0(wd, items, 2, False, "c02")
+    groups = ic.run_y0(wd, items, 3, False, "c02")
     vs, st, by_id = ic.judge(wd, groups, seeds=(1,))
     idx = ic.index(items)
     # machinery consistency: TLC's two independent oracles (IDRef verdict of the generator, TianOK in TV) agree
